@@ -180,6 +180,10 @@ def ledgerCompare (p : LedgerParsed) : Res :=
   else if modelOutcome ≠ p.implOutcome then
     { verdict := "DIFF", tags := "dk=outcome" :: tags,
       msg := s!"outcome model={modelOutcome}({match fail with | some f => failureName f | none => ""}) impl={p.implOutcome} {p.implMsg}" }
+  else if modelOutcome == "err" && ds.length ≠ p.impls.length then
+    -- both reject, but at different rows
+    { verdict := "DIFF", tags := "dk=outcome" :: tags,
+      msg := s!"outcome model=err({match fail with | some f => failureName f | none => ""})@row{ds.length} impl=err@row{p.impls.length} {p.implMsg}" }
   else
     match cmpDeltas 0 ds p.impls with
     | some e =>
